@@ -10,6 +10,11 @@ import (
 //
 // See https://www.w3.org/TR/2019/REC-wasm-core-1-20191205/#custom-section%E2%91%A0
 func decodeCustomSection(r *bytes.Reader, name string, limit uint64) (result *wasm.CustomSection, err error) {
+	// The declared size is untrusted: never allocate more than the input still holds. A short read
+	// is reported by the caller's section-length check, exactly as before.
+	if remaining := uint64(r.Len()); limit > remaining {
+		limit = remaining
+	}
 	buf := make([]byte, limit)
 	_, err = r.Read(buf)
 
